@@ -96,6 +96,10 @@ func (e *Engine) heapSortOf(name string) string {
 	if strings.HasPrefix(name, "MD$") { // map domain: MD$K
 		return "(Array Addr (Array " + name[3:] + " Bool))"
 	}
+	if strings.HasPrefix(name, "MS$") { // struct-valued map, one leaf: MS$K$V$<tag>_<leaf>
+		p := strings.SplitN(name[3:], "$", 3)
+		return "(Array Addr (Array " + p[0] + " " + p[1] + "))"
+	}
 	if strings.HasPrefix(name, "MV$") { // map values: MV$K$V
 		p := strings.SplitN(name[3:], "$", 2)
 		return "(Array Addr (Array " + p[0] + " " + p[1] + "))"
